@@ -89,9 +89,7 @@ fn died(e: &LspError, method: &str, srv: &mut LspServer) -> (String, String) {
 /// Sweeps one layout of one program. Returns the number of requests answered.
 pub fn sweep(p: &Program, variant: usize) -> Result<u64, (String, String)> {
     let l = layout(p, variant);
-    let files: Vec<(&str, &str)> = l.texts.iter().map(|(n, t)| (n.as_str(), t.as_str())).collect();
-    let ws = TempWorkspace::new(&files).map_err(|e| ("harness: workspace".to_owned(), e.to_string()))?;
-    let mut srv = LspServer::start(ws.path()).map_err(|e| ("harness: cannot start oal-lsp".to_owned(), e.to_string()))?;
+    let (_ws, mut srv) = l.start()?;
     let positions = l.positions();
     let mut answered = 0u64;
     // Pipelined in batches.
@@ -121,7 +119,7 @@ pub fn sweep(p: &Program, variant: usize) -> Result<u64, (String, String)> {
 
 fn location(l: &Layout, srv: &LspServer, v: &Value) -> Option<(usize, usize, usize)> {
     let uri = v.get("uri")?.as_str()?;
-    let file = srv.relative(uri).to_owned();
+    let file = srv.relative_path(uri);
     let mi = l.module_index(&file)?;
     let (s, e) = range_offsets(&l.texts[mi].1, v.get("range")?)?;
     Some((mi, s, e))
@@ -250,7 +248,7 @@ fn check_position(
 
 pub fn judge(p: &Program, sink: Option<&mut Sink>) -> Outcome {
     let mut total = 0u64;
-    for variant in 0..2 {
+    for variant in variants_of(p) {
         match sweep(p, variant) {
             Ok(n) => total += n,
             Err((sig, summary)) => {
@@ -265,7 +263,7 @@ pub fn judge(p: &Program, sink: Option<&mut Sink>) -> Outcome {
     }
     if let Some(s) = sink {
         s.count("requests", total);
-        s.count("sessions", 2);
+        s.count("sessions", variants_of(p).len() as u64);
     }
     Outcome::ok("answers mirror the binding relation", Some(hash_of(&print(p).texts)))
 }
